@@ -66,7 +66,7 @@ def mc_plan(pid, quick):
             plan.append(("Split", W, B, 3, 2 if quick else 3, 6, False))
         if pid != "C04":
             plan.append(("BIQF", W, B, 4 + d, 2, 1, False))
-    for B in ([(1, 4)] if quick else [(1, 4), (1, 2), (3, 4), (1, 1)]):
+    for B in ([(1, 4), (3, 8)] if quick else [(1, 4), (1, 2), (3, 4), (1, 1), (3, 8), (5, 8)]):
         plan.append(("DensitySplit", 2, B, 5 + d, 3, 1, False))
         plan.append(("Periodic", 2, B, 10, 3, 1, False))
         plan.append(("StreamRandom", 2, B, 6, 3, 6, False))
@@ -178,8 +178,11 @@ def _exact_job(arg):
 def exact_jobs(chk, pid, quick, rng, cases):
     """scenarios x kinds x parameter grid for the exact regime"""
     jobs = []
-    grid = [(2, (1, 2)), (4, (1, 4)), (2, (1, 4)), (2, (1, 1))] if quick else \
-        [(2, (1, 2)), (4, (1, 4)), (2, (1, 4)), (2, (1, 1)), (4, (1, 2)), (8, (1, 8)), (8, (1, 2)), (2, (1, 8))]
+    # budgets whose reciprocal is not an integer (3/4, 3/8, 5/8) are part of the grid: a manager that
+    # rounds 1/budget is only exposed by them
+    grid = [(2, (1, 2)), (4, (1, 4)), (2, (1, 4)), (2, (1, 1)), (2, (3, 4)), (4, (3, 8))] if quick else \
+        [(2, (1, 2)), (4, (1, 4)), (2, (1, 4)), (2, (1, 1)), (4, (1, 2)), (8, (1, 8)), (8, (1, 2)), (2, (1, 8)),
+         (2, (3, 4)), (4, (3, 8)), (2, (5, 8)), (4, (3, 4))]
     kinds = bc.KINDS
     per_kind = 250 if quick else 4000
     for kind in kinds:
@@ -327,13 +330,13 @@ def proto_jobs(pid, quick, rng):
     reps = 8 if quick else 40
     for name in sorted(sc.manager_factories()):
         for r in range(reps):
-            budget = float(rng.choice([0.05, 0.1, 0.25, 0.5, 1.0, rng.uniform(0.02, 1.0)]))
+            budget = float(rng.choice([0.05, 0.1, 0.25, 0.5, 1.0, 0.3, 0.15, 0.07, 0.6, 0.9, rng.uniform(0.02, 1.0)]))
             w = int(rng.choice([1, 2, 5, 20, 100]))
             n = int(rng.choice([60, 200] if quick else [200, 600, 1500]))
             jobs.append((name, True, budget, w, int(rng.integers(0, 100)), n, r % 4, int(rng.integers(0, 10 ** 6))))
     for name in sorted(sc.strategy_factories()):
         for r in range(reps):
-            budget = float(rng.choice([0.05, 0.1, 0.25, 0.5, 1.0, rng.uniform(0.02, 1.0)]))
+            budget = float(rng.choice([0.05, 0.1, 0.25, 0.5, 1.0, 0.3, 0.15, 0.07, 0.6, 0.9, rng.uniform(0.02, 1.0)]))
             w = int(rng.choice([2, 5, 20, 100]))
             n = int(rng.choice([60, 160] if quick else [160, 400]))
             jobs.append((name, False, budget, w, int(rng.integers(0, 100)), n, r % 4, int(rng.integers(0, 10 ** 6))))
